@@ -380,6 +380,10 @@ func (in *l3Info) walk(mode int, inGroup bool, pos int, prev rune, s []rune, dep
 				in.malformed = true
 				return ok
 			}
+			if dotSens && pos == l3Unknown && rest[0] == '.' {
+				in.leadingDot = true // a literal dot after a `*` that may have matched nothing
+				ok = false
+			}
 			pos, prev, s = l3PosAfter(rest[0]), rest[0], rest[1:]
 		case ext && l3IsExtOp(c) && len(rest) > 0 && rest[0] == '(':
 			if c == '!' {
@@ -518,6 +522,10 @@ func (in *l3Info) walk(mode int, inGroup bool, pos int, prev rune, s []rune, dep
 			ok = false
 			pos, prev, s = l3Mid, c, rest
 		default:
+			if dotSens && pos == l3Unknown && c == '.' {
+				in.leadingDot = true // `*.d` must not match `.d`
+				ok = false
+			}
 			pos, prev, s = l3PosAfter(c), c, rest
 		}
 	}
